@@ -29,15 +29,15 @@ claimed = {
    ref="4/C05"),
  "C06": dict(
    text="Proof of the flag contracts at bit level for all indices (Set/Reset/Get/MatchFlag), of IsWriteableFlag (> 5), that refresh leaves flags 0..5 unchanged for every FlagSet/FlagReset list (loop invariants), that CATCH moves exactly when flag state equals mode and CROAK empties the code under the same test, and that Run decodes nothing and changes nothing while TERMINATE is set (call-site gate + blocked postcondition).",
-   note="Premise: flag numbers returned by external code and used in CATCH/CROAK are below the session's flag count. Engine part (exec, runFirst/H24) not yet under contract. Trusted: vcgo translation, 8-bit decomposition facts, solvers.",
+   note="Premise: flag numbers returned by external code and used in CATCH/CROAK are below the session's flag count. Engine side: exec stops on TERMINATE; runFirst (entry function) does not call out while TERMINATE is set; known finding H24 (runFirst clears a TERMINATE it did not raise). One postulate (runFirst keeps the engine's own VM intact). Trusted: vcgo translation, 8-bit decomposition facts, solvers.",
    ref="4/C06"),
  "C08": dict(
    text="Proof of the session invariant as Run's loop invariant (VM object consistent, cache scopes distinct/unique/sized, mapping table separate, one cache scope per navigation level) preserved by all twelve instruction handlers, plus automatic no-panic obligations (nil, bounds, nil map, type assertion, explicit panic) in every function of the slice (1500+ obligations).",
    note="Known findings H22a-c (deliberate panic beyond MaxLevel) and H23 (CROAK breaks lock-step) are reported. Premises as in C03/C06. Byte accounting is proved per cache method in C09 (private to package cache). Engine/render request path beyond Vm.Run not yet covered. Trusted: vcgo translation, stubs for std/third-party, solvers.",
    ref="4/C08"),
  "C20": dict(
-   text="Proof that runDeadCheck sets TERMINATE exactly when code runs out outside input handling and that Run is a no-op while TERMINATE is set (blocked postcondition + decode gate).",
-   note="Reduced: engine-side end-of-session handling (setCode, Flush/reset, init) not yet under contract.",
+   text="Proof that runDeadCheck sets TERMINATE exactly when code runs out outside input handling, that Run is a no-op while TERMINATE is set (blocked postcondition + decode gate), and of the engine-side transitions: setCode remembers the exit value exactly when output is pending at the end of code, exec stops on TERMINATE, Flush after the final output unwinds the whole stack, releases the cache scopes and clears TERMINATE and DIRTY while keeping the client flags (reset's loop invariant).",
+   note="Verified for the initialised engine (every request after the first); first-time setup (persister, entry function) is covered by assumed contracts. Trusted: vcgo translation, resource/render stubs, solvers.",
    ref="4/C20"),
  "C09": dict(
    text="Proof over every Cache method (NewCache, Add, Update, Get, Push, Pop, Reset, frameOf, checkCapacity, ReservedSize, Last, Levels) that the representation invariant is preserved for all inputs: scopes are distinct maps, a symbol lives in at most one scope, every live symbol has a limit, CacheUseSize equals the summed length of all stored values (mod 2^32) and that sum never exceeds the capacity; values over their limit are rejected for every length, rejected calls change nothing, Pop/Reset release exactly the bytes of the scopes they drop. Loops (map ranges, scope scan) are cut by inductive invariants.",
@@ -51,6 +51,10 @@ claimed = {
    text="Proof, for every byte string, that the VM's instruction decoders (opSplit, instructionSplit, intSplit, parseSym/TwoSym/SymLen/SymSig/Sig) never panic (automatic bounds/nil obligations) and return nil error only when a complete, valid argument group was consumed (postconditions over the real code's SSA).",
    note="Trusted: vcgo's SSA-to-SMT translation, fmt.Errorf/encoding/binary stubs, lengths < 2^31, solver unsat answers. ParseAll/ToString (disassembler loop) not yet under contract.",
    ref="4/C15"),
+ "C10": dict(
+   text="Proof for the memory and filesystem backends that the code implements the keyed-map view: the storage key is exactly type byte + (session prefix for session-scoped types) + key (+ '_' + language code for translatable types with a language from the store or the context) (ToSessionKey, ToDbKey, ToKey and the fs/mem overrides, with frames that touch only spare capacity, so a lookup cannot alter the session prefix); Put is refused while the data type is locked and then changes nothing, otherwise writes exactly the record of the translation key if a language applies, else of the default key; Get returns the translation record if present, else the default record, else an error of type ErrNotFound; SetLock/CheckPut/Safe are proved at bit level for all 256 type masks, sealing is irreversible. The file system is a ghost map path -> (exists, content) behind assumed contracts for os.Open/ReadAll/WriteFile/path.Join.",
+   note="Known finding H12 (the filesystem backend's legacy fallback name answers a never-written key with another record). Not covered: the Postgres backend's value semantics (its transaction handling is C13), Dump/listing on the filesystem backend, DbResource.mustSafe. Premises: key, value and session-prefix slices do not share a backing array; data type byte < 208. Trusted: hex/base64/path.Join injective (axioms), OS stubs, vcgo translation, solvers.",
+   ref="4/C10"),
 }
 
 pending_reason = "pending: contracts for this property are not yet under vcgo (see DESIGN.md section 4)"
